@@ -127,6 +127,18 @@ func applyEvil(r *Run, o *stubOrigin, kind string) {
 					st.tracks = append(st.tracks, &cp)
 				}
 			}
+		case "empty-samples":
+			// samples of size zero (fMP4 allows them; an encoder may emit them for skipped frames)
+			if st.container != "fmp4" {
+				break
+			}
+			for _, t := range st.tracks {
+				for _, u := range t.units {
+					if T.Chance(1, 6) {
+						u.payload, u.data = []byte{}, nil
+					}
+				}
+			}
 		case "init-timescale":
 			// the init section declares a degenerate timescale for one track (0, 1, the largest value)
 			if st.container == "fmp4" && len(st.tracks) > 0 {
@@ -328,11 +340,39 @@ func damage(T *Tape, path string, body []byte) []byte {
 	isPlaylist := strings.Contains(path, ".m3u8")
 	if isPlaylist {
 		lines := strings.Split(string(b), "\n")
-		switch T.Intn(8) {
-		case 0: // lose a line
-			if len(lines) > 1 {
+		switch Pick(T, 0, 0, 0, 1, 2, 3, 4, 5, 6, 7) {
+		case 0: // lose a line, or every line of one kind of tag (a playlist that parses but lacks what the client relies on)
+			if len(lines) > 1 && T.Chance(1, 2) {
 				i := T.Intn(len(lines))
 				lines = append(lines[:i], lines[i+1:]...)
+			} else {
+				tagOf := func(l string) string {
+					if !strings.HasPrefix(l, "#EXT") {
+						return ""
+					}
+					if i := strings.IndexByte(l, ':'); i >= 0 {
+						return l[:i]
+					}
+					return l
+				}
+				var kinds []string
+				seen := map[string]bool{}
+				for _, l := range lines {
+					if t := tagOf(l); t != "" && t != "#EXTM3U" && !seen[t] {
+						seen[t] = true
+						kinds = append(kinds, t)
+					}
+				}
+				if len(kinds) > 0 {
+					victim := kinds[T.Intn(len(kinds))]
+					var kept []string
+					for _, l := range lines {
+						if tagOf(l) != victim {
+							kept = append(kept, l)
+						}
+					}
+					lines = kept
+				}
 			}
 		case 1: // duplicate a line
 			i := T.Intn(len(lines))
@@ -416,7 +456,7 @@ func scC13(spot bool) Scenario {
 		evil := "none"
 		if !spot || T.Chance(1, 3) {
 			evil = Pick(T, "unsupported-codec-extra", "unsupported-codec-extra", "unsupported-codec-only", "unsupported-codec-first",
-				"track-id-permutation", "no-leading-data", "many-tracks", "huge-times", "mixed-containers", "rendition-two-tracks", "audio-group-missing", "empty-fragments", "empty-fragments", "init-timescale")
+				"track-id-permutation", "no-leading-data", "many-tracks", "huge-times", "mixed-containers", "rendition-two-tracks", "audio-group-missing", "empty-fragments", "empty-fragments", "init-timescale", "empty-samples")
 			applyEvil(r, o, evil)
 		}
 		// byte-level damage at chosen request positions
